@@ -49,6 +49,15 @@ let eval fn args : string option =
     Some (obs_outcome show_full
             (bind (c_parse true pol (bytes_of_hex b))
                (fun s -> c_compact pol depth (c_invalidate (bytes_of_hex name) s))))
+  | "seq", [pol; ops; b] ->
+    let pol = z_of_hex pol in
+    let parse_op t =
+      if t = "c" then OpCompact else if t = "a" then OpAssemble
+      else if String.length t >= 1 && t.[0] = 'i' then
+        OpInvalidate (bytes_of_hex (String.sub t 1 (String.length t - 1)))
+      else failwith "bad op" in
+    let ol = if ops = "-" then [] else List.map parse_op (String.split_on_char ',' ops) in
+    Some (obs_outcome show_full (bind (c_parse true pol (bytes_of_hex b)) (fun s -> c_run_ops pol depth ol s)))
   | "ucs2utf8", [b] -> Some (obs_outcome (fun x -> "ok " ^ hex_of_bytes x) (c_ucs2_to_utf8 (bytes_of_hex b)))
   | "utf8ucs2", [b] -> Some ("ok " ^ hex_of_bytes (c_utf8_to_ucs2 (bytes_of_hex b)))
   | _ -> None
